@@ -83,11 +83,8 @@ def modelStore (types : List SigType) (ops : List Op) : Option String := do
   let mut e := newEnc types
   for op in ops do
     match op with
-    | .time t => e := timeChange c e t
-    | .vcd id v r => e ← vcdChange e id v r
-    | .raw id st v => e ← rawChange e id v st
-    | .real id le => e ← realChange e id le
     | .split => done := e :: done; e := newEnc types
+    | op => e ← stepOp c e op
   let encs := (e :: done).reverse
   let mut first := encs.headD e
   for other in encs.drop 1 do
